@@ -183,7 +183,7 @@ def run(tier):
     rng = random.Random(vlib.seed())
     quick = tier == "quick"
     scen = []
-    want = 1500 if quick else 15000
+    want = 1500 if quick else 40000
     while len(scen) < want:
         i = len(scen)
         sc = mk(rng, rng.choice([1, 2, 2, 3]), [None, "alias", "agg", "and2"][i % 4], [0, 1, 1, 2][(i // 4) % 4], [0, 0, 1, 2, 5][(i // 16) % 5] if (i // 4) % 4 else 0, i % 11 == 0)
@@ -191,13 +191,13 @@ def run(tier):
             scen.append(sc)
     # ORDER BY with ties on the first key broken by a second key (the first key is a small count)
     made = 0
-    while made < (150 if quick else 1500):
+    while made < (150 if quick else 5000):
         sc = mk(rng, 3, None, 2, 0, False, tie_first=True)
         if sc is not None:
             scen.append(sc); made += 1
     # HAVING built from LIKE / IS [NOT] NULL over a text aggregate (the carrier C13 uses): rejected groups stay out
     import C13
-    for _ in range(100 if quick else 1000):
+    for _ in range(100 if quick else 4000):
         scen.append(C13.having_scen(rng, ["like", "notnull", "isnull", "like_and_notnull", "notnull_and_like"], ["a%", "%b", "a_", "%", "%a%", "a%b", "_"]))
     seqfam.run_scenarios(res, scen, "TracePostAgg", tag="postagg")
     seqfam.run_pinned(res, "TracePostAgg")
